@@ -76,14 +76,25 @@ def run_one(seed, tape, opts):
     results = {"A": [], "B": []}     # subchannel connect()/listen() records
     owners = {"A": Owner(sim), "B": Owner(sim)}
 
+    reuse_ep = {"A": tape.choose(2, "reuseA") == 0,
+                "B": tape.choose(2, "reuseB") == 0}
+    ep_cache = {}
+
     def sub_ops(c):
         def do_connect(c=c):
             if getattr(c, "dilated", None) is None:
                 return
             rec = ["connect", "pending", None, c.has("versions")]
             results[c.name].append(rec)
-            d = c.dilated.connector_for("p").connect(
-                RecFactory(owners[c.name], "p", "opener"))
+            # half of the applications keep their endpoint object around
+            # and call connect() on it again (the usual Twisted idiom)
+            if reuse_ep[c.name]:
+                ep = ep_cache.get(c.name)
+                if ep is None:
+                    ep = ep_cache[c.name] = c.dilated.connector_for("p")
+            else:
+                ep = c.dilated.connector_for("p")
+            d = ep.connect(RecFactory(owners[c.name], "p", "opener"))
             d.addCallbacks(lambda p: rec.__setitem__(1, "ok"),
                            lambda f: (rec.__setitem__(1, "failed"),
                                       rec.__setitem__(2, f.type)))
@@ -115,7 +126,7 @@ def run_one(seed, tape, opts):
         if dilates:
             extra.append(("dilate", {"no_listen": bool(tape.choose(4, "nl")
                                                        == 0)}))
-            for _ in range(tape.choose(3, "nsub")):
+            for _ in range(tape.choose(4, "nsub")):
                 extra.append((tape.pick(("sub_connect", "sub_listen"), "so"),))
         ops = ca.interleave(tape, ops, extra)
         # dilate must precede the subchannel ops
